@@ -5,12 +5,12 @@ Local Open Scope N_scope.
 Definition jrel (j : jstate) (s : cstate) : Prop :=
   jm j = mds s /\ jw j = wnd s /\ jb j = bif s /\
   (forall t, jshrunk j = Some t -> exists r, kind s = Recovery t r) /\
-  (japp j = true -> uu s = true) /\ floor_inv s.
+  (japp j = true -> uu s = true) /\ floor_inv s /\ (jsent j = true -> has_sent s = true).
 
 Lemma mk_jrel : forall j s, jm j = mds s -> jw j = wnd s -> jb j = bif s ->
   (forall t, jshrunk j = Some t -> exists r, kind s = Recovery t r) ->
-  (japp j = true -> uu s = true) -> floor_inv s -> jrel j s.
-Proof. intros. unfold jrel. auto 10. Qed.
+  (japp j = true -> uu s = true) -> floor_inv s -> (jsent j = true -> has_sent s = true) -> jrel j s.
+Proof. intros. unfold jrel. auto 12. Qed.
 
 Lemma wnd_floor : forall s, floor_inv s -> 2 * mds s <= wnd s.
 Proof.
@@ -24,8 +24,12 @@ Proof.
   apply andb_true_intro. split; [apply N.leb_le; lia|apply N.ltb_lt; exact W].
 Qed.
 
-Lemma jvalid_op_valid : forall j s o, jb j = bif s -> jvalid j o = op_valid (bif s) o.
-Proof. intros j s o E. unfold jvalid, op_valid. rewrite E. destruct o; reflexivity. Qed.
+Lemma jvalid_cop_valid : forall j s o, jb j = bif s -> (jsent j = true -> has_sent s = true) ->
+  jvalid j o = true -> cop_valid s o = true.
+Proof.
+  intros j s o E Hs V. unfold jvalid in V. unfold cop_valid, op_valid. rewrite <- E.
+  destruct o; try (rewrite V; reflexivity); try reflexivity. cbn [andb]. apply Hs. exact V.
+Qed.
 
 Lemma wnd_eq_of_cwnd : forall s s', cwnd s' = cwnd s -> wnd s' = wnd s.
 Proof. intros s s' E. unfold wnd. rewrite E. reflexivity. Qed.
@@ -42,31 +46,40 @@ Proof.
   apply N.ltb_lt. exact A.
 Qed.
 
+Ltac sent_tac Esent HS :=
+  let JS := fresh "JS" in
+  intros JS; rewrite HS;
+  first [ rewrite (Esent JS); reflexivity
+        | apply orb_true_iff in JS; destruct JS as [JS|JS];
+          [rewrite (Esent JS); reflexivity | first [discriminate | rewrite JS; apply orb_true_r]] ].
+
 Lemma jstep_sound : forall j s o a s', jrel j s -> oracle_ok_step s o a -> step s o a = Some s' ->
   wnd s' < u32_max ->
   exists j', jstep j o (wnd s') (bif s') = (true, j') /\ jrel j' s'.
 Proof.
-  intros j s o a s' (Em & Ew & Eb & Esh & Eapp & F) O H W.
+  intros j s o a s' (Em & Ew & Eb & Esh & Eapp & F & Esent) O H W.
+  pose proof (step_has_sent _ _ _ _ H) as HS.
   pose proof (step_floor _ _ _ _ F O H) as F'.
   pose proof (common_ok s' F' W) as C.
   pose proof (step_bif _ _ _ _ H) as [B _].
-  destruct o as [bytes app|bytes st now|bytes pers now|now|m|bytes|]; cbn [sent_of removed_of] in B.
+  destruct o as [bytes app snow|bytes st now|bytes pers now|now|m|bytes|ust unow urtt|]; cbn [sent_of removed_of] in B;
+    try rewrite orb_false_r in HS.
   - (* Sent *)
     unfold step in H. unfold jstep. rewrite Em, Eb.
     destruct (N.eqb_spec bytes 0) as [Z|Z].
     + injection H as <-. subst bytes. rewrite N.add_0_r. rewrite C, N.eqb_refl.
-      eexists; split; [reflexivity|]. apply mk_jrel; cbn [jm jw jb jshrunk japp]; auto.
+      eexists; split; [reflexivity|]. apply mk_jrel; cbn [jm jw jb jshrunk japp jsent]; auto; try (sent_tac Esent HS).
     + destruct (u32_max <? bif s + bytes); [discriminate|]. injection H as E.
       assert (Eb' : bif s' = bif s + bytes) by lia.
       assert (Ec : cwnd s' = cwnd s /\ mds s' = mds s).
-      { subst s'. match goal with |- context[clear_req ?x] => destruct (clear_req_proj x) as (A1 & A2 & _) end.
+      { subst s'. cbn [cwnd mds set_hs]. match goal with |- context[clear_req ?x] => destruct (clear_req_proj x) as (A1 & A2 & _) end.
         rewrite A1, A2. split; reflexivity. }
       destruct Ec as [Ec Emd]. rewrite <- Emd. rewrite C. rewrite <- Eb'. rewrite N.eqb_refl.
-      eexists; split; [reflexivity|]. apply mk_jrel; cbn [jm jw jb jshrunk japp]; auto.
-      * intros t Ht. destruct (Esh t Ht) as [r K]. subst s'. eapply kind_clear_req. cbn [kind set_uu set_bif]. exact K.
+      eexists; split; [reflexivity|]. apply mk_jrel; cbn [jm jw jb jshrunk japp jsent]; auto; try (sent_tac Esent HS).
+      * intros t Ht. destruct (Esh t Ht) as [r K]. subst s'. cbn [kind set_hs]. eapply kind_clear_req. cbn [kind set_uu set_bif]. exact K.
       * intros A. apply andb_prop in A. destruct A as [A A3]. apply andb_prop in A. destruct A as [A1 A2].
         apply N.eqb_eq in A1. apply N.ltb_lt in A2. apply N.ltb_lt in A3. subst app.
-        subst s'. match goal with |- context[clear_req ?x] => destruct (clear_req_proj x) as (_ & _ & _ & A4 & _) end.
+        subst s'. cbn [uu set_hs]. match goal with |- context[clear_req ?x] => destruct (clear_req_proj x) as (_ & _ & _ & A4 & _) end.
         rewrite A4. cbn [uu set_uu].
         assert (W1 : wnd (set_bif s (bif s + bytes)) = wnd s) by reflexivity.
         apply under_utilized_true; cbn [mds bif set_bif]; rewrite W1.
@@ -85,7 +98,7 @@ Proof.
     { destruct (japp j) eqn:JA; [|reflexivity]. apply N.leb_le. rewrite Ew.
       destruct (cubic_app_limited_frozen _ _ _ _ _ _ (Eapp eq_refl) H0) as (Q & _).
       rewrite (wnd_eq_of_cwnd _ _ Q). lia. }
-    rewrite A. eexists; split; [reflexivity|]. apply mk_jrel; cbn [jm jw jb jshrunk japp]; auto.
+    rewrite A. eexists; split; [reflexivity|]. apply mk_jrel; cbn [jm jw jb jshrunk japp jsent]; auto; try (sent_tac Esent HS).
     + intros t Ht. destruct (jshrunk j) as [t0|] eqn:JS; [|discriminate].
       destruct (N.ltb_spec t0 st) as [L|L]; [discriminate|]. injection Ht as <-.
       destruct (Esh t0 eq_refl) as [r K].
@@ -108,7 +121,7 @@ Proof.
     destruct pers.
     + destruct F as [F0 M]. destruct (cubic_persistent_collapse _ _ _ _ _ M H0) as (_ & Q & Qk & _).
       rewrite floor_u32_eq. rewrite Q, N.eqb_refl.
-      eexists; split; [reflexivity|]. apply mk_jrel; cbn [jm jw jb jshrunk japp]; auto; try lia.
+      eexists; split; [reflexivity|]. apply mk_jrel; cbn [jm jw jb jshrunk japp jsent]; auto; try (sent_tac Esent HS); try lia.
       * intros t Ht. discriminate.
       * intros JA. rewrite Euu. auto.
     + injection H as E.
@@ -116,7 +129,7 @@ Proof.
       { destruct (jshrunk j) as [t0|] eqn:JS; [|reflexivity]. destruct (Esh t0 eq_refl) as [r K].
         destruct (cubic_once_per_recovery s (Lost bytes false now) a s' t0 r K eq_refl) as (Q & _); [intros; discriminate|exact H0|].
         rewrite (wnd_eq_of_cwnd _ _ Q). apply N.eqb_refl. }
-      rewrite X. eexists; split; [reflexivity|]. apply mk_jrel; cbn [jm jw jb jshrunk japp]; auto; try lia.
+      rewrite X. eexists; split; [reflexivity|]. apply mk_jrel; cbn [jm jw jb jshrunk japp jsent]; auto; try (sent_tac Esent HS); try lia.
       * intros t Ht. destruct (N.ltb_spec (wnd s') (wnd s)) as [L|L].
         -- injection Ht as <-. subst s'. unfold congestion_event in *. cbn [kind set_bif] in *.
            destruct (kind s) eqn:K; cbn [kind]; eauto.
@@ -134,7 +147,7 @@ Proof.
     { destruct (jshrunk j) as [t0|] eqn:JS; [|reflexivity]. destruct (Esh t0 eq_refl) as [r K].
       destruct (cubic_once_per_recovery s (Ecn now) a s' t0 r K eq_refl) as (Q & _); [intros; discriminate|exact H0|].
       rewrite (wnd_eq_of_cwnd _ _ Q). apply N.eqb_refl. }
-    rewrite X. eexists; split; [reflexivity|]. apply mk_jrel; cbn [jm jw jb jshrunk japp]; auto; try lia.
+    rewrite X. eexists; split; [reflexivity|]. apply mk_jrel; cbn [jm jw jb jshrunk japp jsent]; auto; try (sent_tac Esent HS); try lia.
     + intros t Ht. destruct (N.ltb_spec (wnd s') (wnd s)) as [L|L].
       * injection Ht as <-. subst s'. unfold congestion_event in *.
         destruct (kind s) eqn:K; cbn [kind]; eauto.
@@ -146,7 +159,7 @@ Proof.
     unfold step in H. injection H as E. unfold jstep. rewrite Eb.
     assert (Emd : mds s' = m) by (subst s'; reflexivity). rewrite Emd in C. rewrite C.
     replace (bif s) with (bif s') by lia. rewrite N.eqb_refl.
-    eexists; split; [reflexivity|]. apply mk_jrel; cbn [jm jw jb jshrunk japp]; auto.
+    eexists; split; [reflexivity|]. apply mk_jrel; cbn [jm jw jb jshrunk japp jsent]; auto; try (sent_tac Esent HS).
     + intros t Ht. destruct (Esh t Ht) as [r K]. subst s'. cbn [kind]. eauto.
     + intros JA. subst s'. cbn [uu]. auto.
   - (* Discard *)
@@ -154,17 +167,24 @@ Proof.
     destruct (clear_req_proj (set_bif s (bif s - bytes))) as (A1 & A2 & A3 & A4 & _). rewrite E in A1, A2, A3, A4.
     cbn [mds cwnd bif uu set_bif] in A1, A2, A3, A4.
     unfold jstep. rewrite Em, Eb. rewrite <- A1. rewrite C. rewrite <- A3. rewrite N.eqb_refl.
-    eexists; split; [reflexivity|]. apply mk_jrel; cbn [jm jw jb jshrunk japp]; auto.
+    eexists; split; [reflexivity|]. apply mk_jrel; cbn [jm jw jb jshrunk japp jsent]; auto; try (sent_tac Esent HS).
     + intros t Ht. destruct (Esh t Ht) as [r K]. subst s'. eapply kind_clear_req. cbn [kind set_bif]. exact K.
     + intros JA. rewrite A4. auto.
+  - (* RttUpd *)
+    unfold step in H. destruct (tls (hs s)) as [last|]; [|discriminate]. injection H as E.
+    destruct (on_rtt_update_proj s ust unow urtt last) as (P1 & P2 & P3 & P4 & _ & P6). rewrite E in P1, P2, P3, P4, P6.
+    unfold jstep. rewrite Em, Eb. rewrite <- P1. rewrite C. rewrite <- P3. rewrite N.eqb_refl.
+    eexists; split; [reflexivity|]. apply mk_jrel; cbn [jm jw jb jshrunk japp jsent]; auto; try (sent_tac Esent HS).
+    + intros t Ht. destruct (Esh t Ht) as [r K]. rewrite (P6 t r K). eauto.
+    + intros JA. rewrite P4. auto.
   - (* Nop *)
     unfold step in H. injection H as <-. unfold jstep. rewrite Em, Eb. rewrite C, N.eqb_refl.
-    eexists; split; [reflexivity|]. apply mk_jrel; cbn [jm jw jb jshrunk japp]; auto.
+    eexists; split; [reflexivity|]. apply mk_jrel; cbn [jm jw jb jshrunk japp jsent]; auto; try (sent_tac Esent HS).
 Qed.
 
-(* what is assumed of the oracle's answers along a replay: the monitored floor assumption at the
-   congestion-avoidance site, a u16 datagram size at on_mtu_update, and no saturation of the
-   reported u32 window *)
+(* what is assumed along a replay: the monitored floor assumption at the congestion-avoidance site,
+   a u16 datagram size at on_mtu_update and a window of at most 2^31 bytes after it (that window is
+   computed by the model, not an oracle).  No hypothesis on the window at any other step. *)
 Fixpoint replay_ok (s : cstate) (ops : list op) (rows : list Z) : Prop :=
   match ops with
   | [] => True
@@ -172,28 +192,33 @@ Fixpoint replay_ok (s : cstate) (ops : list op) (rows : list Z) : Prop :=
       let '(a, rows') := next_answer rows in
       oracle_ok_step s o a /\
       match step s o a with
-      | Some s' => wnd s' < u32_max /\ replay_ok s' t rows'
+      | Some s' => cmtu_step_ok o s' /\ replay_ok s' t rows'
       | None => True
       end
   end.
 
-Lemma judge_replay_from : forall ops s j rows, jrel j s -> replay_ok s ops rows ->
-  judge_from j ops (replay_from s ops rows) = true.
+Fixpoint sent_ops (ops : list op) : N := match ops with [] => 0 | o :: t => sent_of o + sent_ops t end.
+
+Lemma judge_replay_from : forall ops s j rows S, jrel j s -> csat s S -> S + sent_ops ops <= SENT_CAP ->
+  replay_ok s ops rows -> judge_from j ops (replay_from s ops rows) = true.
 Proof.
-  induction ops as [|o t IH]; intros s j rows R K; cbn [judge_from replay_from replay_ok] in *.
+  induction ops as [|o t IH]; intros s j rows S R CS T K; cbn [judge_from replay_from replay_ok sent_ops] in *.
   - reflexivity.
   - destruct (next_answer rows) as [a rows'].
     destruct (jvalid j o) eqn:V; cbn [negb]; [|reflexivity].
     destruct K as [O K].
     assert (Eb : jb j = bif s) by (destruct R as (_ & _ & E & _); exact E).
-    rewrite (jvalid_op_valid j s o Eb) in V. apply (step_some_iff s o a) in V.
-    destruct (step s o a) as [s'|] eqn:E; [|congruence]. destruct K as [W K].
+    assert (Es : jsent j = true -> has_sent s = true) by (destruct R as (_ & _ & _ & _ & _ & _ & E); exact E).
+    pose proof (jvalid_cop_valid j s o Eb Es V) as V'. apply (step_some_iff s o a) in V'.
+    destruct (step s o a) as [s'|] eqn:E; [|congruence]. destruct K as [KM K].
+    assert (CS' : csat s' (S + sent_of o)) by (eapply step_sat; try eassumption; lia).
+    pose proof (csat_wnd _ _ CS') as W.
     destruct (jstep_sound j s o a s' R O E W) as (j' & J1 & J2).
     unfold row. cbn [app].
     assert (Z1 : (Nz (wnd s') <? 0)%Z = false) by (apply Z.ltb_ge; unfold Nz; lia).
     assert (Z2 : (Nz (bif s') <? 0)%Z = false) by (apply Z.ltb_ge; unfold Nz; lia).
     rewrite Z1, Z2. cbn [orb]. unfold zN, Nz. rewrite !N2Z.id. rewrite J1. cbn [andb].
-    apply (IH s'); assumption.
+    apply (IH s' _ _ (S + sent_of o)); try assumption. lia.
 Qed.
 
 Lemma cinit_wnd : forall m, m < 65536 -> wnd (cinit m) = initial_window m.
@@ -204,13 +229,14 @@ Proof.
   unfold to_u32, FX. rewrite N.mul_comm, N.div_mul by lia. unfold u32_max. lia.
 Qed.
 
-(* the judgement accepts every replay of the model: for every case whose datagram size fits a
-   u16 and every sequence of oracle answers meeting [replay_ok] *)
+(* the judgement accepts every replay of the model: for every case whose datagram size fits a u16,
+   in which at most 2^30 bytes are sent, and every sequence of oracle answers meeting [replay_ok] *)
 Theorem judge_replay : forall m t rows, (0 <= m < 65536)%Z ->
+  sent_ops (decode 0 t) <= SENT_CAP ->
   replay_ok (cinit (zN m)) (decode 0 t) (snd (next_answer rows)) ->
   judge (m :: t) (replay (m :: t) rows) = true.
 Proof.
-  intros m t rows M K. unfold judge, replay.
+  intros m t rows M T K. unfold judge, replay.
   assert (M' : zN m < 65536) by (unfold zN; lia).
   set (s := cinit (zN m)) in *. unfold row. cbn [app].
   assert (W : wnd s = initial_window (zN m)) by (apply cinit_wnd; exact M').
@@ -220,7 +246,9 @@ Proof.
   assert (Z2 : (2 * zN m <=? wnd s) = true) by (apply N.leb_le; lia).
   assert (Z3 : (wnd s <? u32_max) = true) by (apply N.ltb_lt; unfold u32_max; lia).
   rewrite Z2, Z3. cbn [andb bif s cinit]. change (Z.of_N 0 =? 0)%Z with true. cbn [andb].
-  apply (judge_replay_from _ s); [|exact K].
-  apply mk_jrel; cbn [jm jw jb jshrunk japp]; auto; try (intros; discriminate).
-  apply cinit_floor. exact M'.
+  apply (judge_replay_from _ s _ _ 0); [| |lia|exact K].
+  - apply mk_jrel; cbn [jm jw jb jshrunk japp jsent]; auto; try (intros; discriminate).
+    apply cinit_floor. exact M'.
+  - unfold csat, s. cbn [cinit cwnd bif_hi bif mds]. repeat split; try lia.
+    unfold fx_of_int. rewrite round24_small by (change (2 ^ 24) with 16777216; lia). unfold WCAP, FX. lia.
 Qed.
